@@ -350,7 +350,7 @@ def sys_cases(ctx, prop, mode, names=None, limit=None, default_fsync_only=False)
         vs = [v for v in vs if v['name'].startswith(tuple(names))]
     seen, out = set(), []
     for v in vs:
-        key = v['name'].split('@')[0] if ctx.tier == 'quick' else v['name']
+        key = v['name'].split('@')[0]  # one pre-state per operation variant at syscall level (each case costs > 1 s here)
         if key in seen:
             continue
         seen.add(key)
